@@ -414,7 +414,12 @@ where
                     format!("Path expected: {path_str}"),
                 ));
             }
-            let path = Path::from_escaped_string(path_str.trim()).map_err(|e| {
+            // Strip exactly what the writer added: the 4-space indent and the line terminator.
+            // Blanks that belong to the file name (leading or trailing) must be preserved.
+            let escaped = &path_str[4..];
+            let escaped = escaped.strip_suffix('\n').unwrap_or(escaped);
+            let escaped = escaped.strip_suffix('\r').unwrap_or(escaped);
+            let path = Path::from_escaped_string(escaped).map_err(|e| {
                 Error::new(
                     ErrorKind::InvalidData,
                     format!("Invalid path {path_str}: {e}"),
